@@ -331,6 +331,9 @@ func init() {
 			if r.P(30) {
 				add("ns0/nosuch")
 			}
+			if r.P(25) {
+				add("/") // what the namespace/name form of an ip-block looks like
+			}
 			if r.P(35) {
 				add("ingress-controller")
 			}
